@@ -469,7 +469,7 @@ func runReaderCase(ctx context.Context, w *rec.Writer, seed uint64) {
 	if r.Chance(1, 8) {
 		nc = r.Range(13, 22) // beyond the insertion-sort range of slices.SortFunc
 	}
-	overlap := nc <= 12 && r.Chance(1, 6) // contextual tuples may repeat keys (of stored tuples, of each other)
+	overlap := nc <= 12 && r.Chance(1, 4) // contextual tuples may repeat keys (of stored tuples, of each other)
 	seen := map[string]bool{}
 	var stored, ctxT []*openfgav1.TupleKey
 	for len(stored) < ns {
@@ -486,6 +486,10 @@ func runReaderCase(ctx context.Context, w *rec.Writer, seed uint64) {
 	unique := true
 	for tries := 0; len(ctxT) < nc && tries < 400; tries++ {
 		t := genTupleKey(r)
+		if overlap && len(stored) > 0 && r.Chance(1, 3) { // the key of a stored tuple, perhaps with another condition
+			k := rec.Pick(r, stored)
+			t.Object, t.Relation, t.User = k.GetObject(), k.GetRelation(), k.GetUser()
+		}
 		if seen[keyOf(t)] {
 			if !overlap {
 				continue
